@@ -14,6 +14,7 @@ func init() { register("C12", "exploration", runC12) }
 
 func runC12(r *engine.Run) {
 	r.Rule = "E1 over a finite space, enumerated completely in both tiers: 24 band names (14 + 10 deprecated aliases) x repeater x dwell-time; per configuration every uplink channel index (and -1, n, n+1), every (uplink DR, RX1 offset) in [-2..16] x [-2..9], and DevAddr(16) x beaconTime(6) for the ping-slot rule; for bands with dynamic channels the channel part is repeated after adding custom channels and disabling one. Oracle: the snapshot hook gives exact definedness and direction flags of data-rates; the region's rules (RX1 channel rule, RX1 data-rate formula, fixed ping-slot frequency or hopping rule) come from mc/spec/region.go. Non-trivial: a call that returned a value which was compared with the region's rule; distinct by construction."
+	bandConstructionStability(r)
 	bandGetterHistory(r)
 	r.Assume("DevAddr and beacon time use 16 x 6 value alphabets (all residues mod 8 of both, the 128 s period boundary, 2^31 s); everything else is finite and enumerated completely")
 	r.Assume("where the Regional Parameters define no closed formula (LR-FHSS rows, KR920/IN865 offsets 6-7) only the structural rules are judged: result defined for downlink, monotone over the positive offsets, at most one defined downlink data-rate per step")
